@@ -171,6 +171,7 @@ func (eap *EAP) CalcEapAkaPrimeAtMAC(key []byte) ([]byte, error) {
 		return nil, errors.Errorf("Expected EAP-AKA' type, but got %s", dataType.String())
 	}
 	eapAkaPrime := eap.EapTypeData.(*EapAkaPrime)
+	received, isReceived := eapAkaPrime.receivedWithZeroMAC()
 
 	// Reset AT_MAC
 	err := eapAkaPrime.initMAC()
@@ -182,6 +183,13 @@ func (eap *EAP) CalcEapAkaPrimeAtMAC(key []byte) ([]byte, error) {
 	eapBytes, err := eap.Marshal()
 	if err != nil {
 		return nil, errors.Wrapf(err, "EAP marshal failed")
+	}
+	if isReceived {
+		// A received message is authenticated as it was received, not as it would be sent
+		eapBytes = []byte{byte(eap.Code), eap.Identifier, 0, 0}
+		eapBytes = append(eapBytes, received...)
+		binary.BigEndian.PutUint16(eapBytes[2:4], uint16(len(eapBytes)))
+		eapAkaPrime.received = received
 	}
 
 	// Calculate AT_MAC
